@@ -61,9 +61,11 @@ func (r *yieldRewriter) rewriteRanges(block *ast.BlockStmt) {
 				// typing workaround for abstract generic array iter
 				// type can't be infered from array, so we wrap it with slice
 				operand := n.X
-				if tv, ok := r.pkg.TypesInfo.Types[n.X]; ok && !tv.Addressable() {
+				if tv, ok := r.pkg.TypesInfo.Types[n.X]; ok && !tv.Addressable() || r.arrayRangeNeedsCopy(n) {
 					// an array value that cannot be sliced in place (a call, a
-					// composite literal, ...): evaluate it into a temporary first
+					// composite literal, ...), or one that may be written while the
+					// loop runs (range iterates over a copy of an array operand when
+					// the value variable is present): evaluate it into a temporary first
 					tmp := X.Ident(r.gensym(cstIterVar) + cstArrayTmpSuffix)
 					c.InsertBefore(X.Define(tmp, n.X))
 					operand = tmp
@@ -83,6 +85,91 @@ func (r *yieldRewriter) rewriteRanges(block *ast.BlockStmt) {
 		}
 		return true
 	})
+}
+
+// arrayRangeNeedsCopy reports whether slicing the addressable array operand of n in
+// place could be told from ranging over a copy of it, which is what the range
+// statement does when it has a value variable. Only a local variable that nothing
+// in its file writes to, takes the address of, slices or calls a method on can be
+// used in place.
+func (r *yieldRewriter) arrayRangeNeedsCopy(n *ast.RangeStmt) bool {
+	if _, ignoreVal := r.ignoreKeyVal(n.Key, n.Value); ignoreVal {
+		return false // elements are never read
+	}
+	id, ok := astutil.Unparen(n.X).(*ast.Ident)
+	if !ok {
+		return true // a field, an element, a dereference: others may hold it too
+	}
+	info := r.pkg.TypesInfo
+	obj, ok := info.ObjectOf(id).(*types.Var)
+	if !ok || obj.IsField() || obj.Pkg() == nil || obj.Parent() == nil || obj.Parent() == obj.Pkg().Scope() {
+		return true
+	}
+	for _, file := range r.pkg.Syntax {
+		if file.Pos() <= obj.Pos() && obj.Pos() < file.End() {
+			return mayBeWritten(info, file, obj)
+		}
+	}
+	return true
+}
+
+// mayBeWritten reports whether file contains a use of the array variable obj, or of
+// a part of it, as the target of an assignment, '++', '--' or a range clause, as
+// the operand of '&' or of a slice expression, or as the receiver of a method.
+func mayBeWritten(info *types.Info, file *ast.File, obj *types.Var) (written bool) {
+	var stack []ast.Node
+	ast.Inspect(file, func(n ast.Node) bool {
+		if n == nil {
+			stack = stack[:len(stack)-1]
+			return true
+		}
+		stack = append(stack, n)
+		id, ok := n.(*ast.Ident)
+		if !ok || info.Uses[id] != obj {
+			return !written
+		}
+		// the largest expression that denotes the variable or a part of it
+		var part ast.Expr = id
+		i := len(stack) - 2
+	up:
+		for ; i >= 0; i-- {
+			switch p := stack[i].(type) {
+			case *ast.ParenExpr:
+			case *ast.IndexExpr:
+				if p.X != part {
+					break up
+				}
+			case *ast.SelectorExpr:
+				if sel := info.Selections[p]; p.X != part || sel == nil || sel.Kind() != types.FieldVal {
+					written = written || p.X == part // a method: it may have a pointer receiver
+					break up
+				}
+			default:
+				break up
+			}
+			part = stack[i].(ast.Expr)
+		}
+		if i < 0 {
+			return !written
+		}
+		switch p := stack[i].(type) {
+		case *ast.AssignStmt:
+			for _, lhs := range p.Lhs {
+				written = written || lhs == part
+			}
+		case *ast.IncDecStmt:
+			written = written || p.X == part
+		case *ast.RangeStmt:
+			written = written || p.Key == part || p.Value == part
+		case *ast.UnaryExpr:
+			written = written || p.Op == token.AND
+		case *ast.SliceExpr:
+			// (not the position-less 'x[:]' of an array range rewritten earlier)
+			written = written || p.X == part && p.Lbrack.IsValid()
+		}
+		return !written
+	})
+	return
 }
 
 // typedRangeLimit keeps the type the range statement gives to a constant limit:
